@@ -6,7 +6,7 @@ from .. import base, corpus, explore, layout, report, universe
 from . import common
 
 PROP = "C05"
-KINDS = tuple(k for k in layout.ALL_OPS if k not in ("WFF", "WNB", "CD", "PPO", "PGO"))  # inline delimited comments are not among the re-layouts the property names
+KINDS = tuple(k for k in layout.ALL_OPS if k not in ("WFF", "WNB", "CD", "CDG", "CDI", "PPO", "PGO", "UPI", "ALLJ"))  # inline delimited comments are not among the re-layouts the property names
 _base = {}
 
 
@@ -65,18 +65,18 @@ def reproduce(item):
 def main(tier):
     t0 = time.time()
     if tier == "quick":
-        its = universe.one_dev(corpus.small_slice(), KINDS) + universe.one_dev(corpus.seed_ids(("fix", "cls", "gen", "big")), ("ALLUP", "ALLLO"))
-        bound = "1 deviation (every layout and case operator at every position) over S_q; whole-file case flips over all seeds"
+        its = universe.one_dev(corpus.small_slice(), KINDS) + universe.one_dev(corpus.seed_ids(("fix", "cls", "gen", "big")), ("ALLUP", "ALLLO", "ALLJ"))
+        bound = "1 deviation (every layout and case operator at every position) over S_q; whole-file case flips and the whole design on one line over all seeds"
     else:
-        its = universe.one_dev(corpus.seed_ids(("fix", "cls")), KINDS) + universe.one_dev(corpus.seed_ids(("gen", "big")), ("NL", "CE", "J", "ALLUP", "ALLLO", "CAP"))
+        its = universe.one_dev(corpus.seed_ids(("fix", "cls")), KINDS) + universe.one_dev(corpus.seed_ids(("gen", "big")), ("NL", "CE", "J", "ALLUP", "ALLLO", "ALLJ", "CAP"))
         singles = [s for s in corpus.small_slice() if s.startswith("gen/")]
         its += universe.two_dev(singles, ("NL", "CE", "J", "W0", "WI", "UP"), max_dist_lines=1)
-        bound = "1 deviation (every operator) over all fix/cls seeds, (NL, CE, J, CAP, whole-file case) over generated and large seeds; 2 deviations (NL, CE, J, W0, CD, UP; at most one line apart) over the single-construct generated designs"
+        bound = "1 deviation (every operator) over all fix/cls seeds, (NL, CE, J, CAP, whole-file case, whole design on one line) over generated and large seeds; 2 deviations (NL, CE, J, W0, CD, UP; at most one line apart) over the single-construct generated designs"
     m = explore.run(its, execute, horizon=30.0, label=PROP, chunk=64)
     return report.finish(
         PROP, tier, "exploration", [m], t0,
         "every variant = seed + one (thorough: up to two) meaning-preserving re-layout(s): whitespace resize/removal/insertion, tab, line split/join, end-of-line / own-line / delimited comment, "
-        "blank line, indentation, trailing whitespace, case change of one word or of all words; the (role, normalised value) sequence of code tokens of its parse must equal that of the seed's parse "
+        "blank line, indentation, trailing whitespace, case change of one word or of all words, all line breaks removed; the (role, normalised value) sequence of code tokens of its parse must equal that of the seed's parse "
         "and the parse must succeed; non-trivial = variants accepted",
         ["operators never touch comments, pragmas, preprocessor lines, code-tag lines, literals or bit-string base specifiers; same-line rewrites are admitted only if the product-independent "
          "check nonblank(create(new)) == nonblank(create(old)) holds", "form feed / NBSP as separators are outside the alphabet (C04 shows VSG does not classify them)"],
